@@ -39,6 +39,10 @@ impl Components {
 }
 
 pub open spec fn exists_m(ps: Map<PathKey, Node>, k: PathKey) -> bool { ps.contains_key(k) && ps[k].reach }
+/// two resolving paths designate the same object (same inode number on the same device: what libfs::is_same_file compares)
+pub open spec fn same_object(ps: Map<PathKey, Node>, a: PathKey, b: PathKey) -> bool {
+    ino_num(ps[a].inode) == ino_num(ps[b].inode) && dev_num(ps[a].inode) == dev_num(ps[b].inode)
+}
 pub open spec fn is_dir_m(ps: Map<PathKey, Node>, k: PathKey) -> bool { exists_m(ps, k) && ps[k].tkind == NodeKind::Dir }
 
 /// what stat(2) (following links) reports for entry `n`
